@@ -22,6 +22,7 @@ def mask_model(line):
 def run(rep, tier):
     lib.proof_gate(rep, PROP, THEOREMS, IMPORTS)
     n, cyc = (100, 300) if tier == "quick" else (6000, 500)
+    n = rep.scale(n)
     agg = runner.correspondence(rep, prop=PROP, mod_name="harness.bridgesim", driver_kind="bridge", ncases=n, extra=(cyc,),
                                 nontrivial=lambda r: r["stats"]["back_to_back"] >= 2 and r["stats"]["partial_sel"] >= 2,
                                 mask_model=mask_model,
